@@ -1,6 +1,6 @@
 SPECIFICATION Spec
 CONSTANTS
-  Family = "lifecycle"
+  Family = "stopfirst"
   MaxEm = 3
   EvPerEm = 2
   FixD3 = TRUE
